@@ -25,6 +25,10 @@ import (
 
 type lineFn func(raw []byte, rep *reporter)
 
+// headerFn, when set, receives lines of the form {"hdr":...} synchronously before
+// any later case is dispatched (TLC prints them while evaluating Init).
+var headerFn func(raw []byte)
+
 func runCases(fn lineFn, rep *reporter) {
 	sc := bufio.NewReaderSize(os.Stdin, 1<<20)
 	lines := make(chan []byte, 4096)
@@ -54,7 +58,12 @@ func runCases(fn lineFn, rep *reporter) {
 		ln, err := sc.ReadBytes('\n')
 		if len(ln) > 0 {
 			t := strings.TrimRight(string(ln), "\r\n")
-			if len(t) > 2 && t[0] == '"' && t[1] == '{' {
+			if headerFn != nil && strings.HasPrefix(t, `"{\"hdr\":`) {
+				var inner string
+				if err := json.Unmarshal([]byte(t), &inner); err == nil {
+					headerFn([]byte(inner))
+				}
+			} else if len(t) > 2 && t[0] == '"' && t[1] == '{' {
 				lines <- []byte(t)
 			} else if len(t) > 0 && t[0] == '{' {
 				// plain ndjson case (replay files)
